@@ -401,6 +401,162 @@ func guardsAtDepth(b *ssa.BasicBlock, depth int) []Guard {
 }
 
 func guardsAtRaw(b *ssa.BasicBlock) []Guard {
+	out := guardsAtDom(b)
+	return append(out, joinFacts(b, out, 0)...)
+}
+
+// joinFacts: facts that hold at b although no single branch dominates it — at a join J on b's dominator chain, the
+// incoming edges whose conditions contradict what is known at b (the same test, re-evaluated after the join, came out the
+// other way) cannot have been taken; what holds on every remaining edge holds at b. (The search loop
+// `for i < n && !match(i) { i++ }; if i < n { use(i) }` is the typical case: at use(i), match(i) is known.)
+func joinFacts(b *ssa.BasicBlock, known []Guard, depth int) []Guard {
+	if depth > 1 {
+		return nil
+	}
+	var out []Guard
+	for j := b; j != nil; j = j.Idom() {
+		if len(j.Preds) < 2 {
+			continue
+		}
+		// facts established between j and b
+		var after []Guard
+		for _, g := range known {
+			if g.If != nil && (g.If.Block() == j || j.Dominates(g.If.Block())) {
+				after = append(after, g)
+			}
+		}
+		if len(after) == 0 {
+			continue
+		}
+		var feasible [][]Guard
+		pruned := 0
+		for _, pr := range j.Preds {
+			if j.Dominates(pr) && pr != j.Idom() {
+				// a back edge: the loop body; treat like any other edge
+			}
+			eg := guardsAtDom(pr)
+			if iff, ok := pr.Instrs[len(pr.Instrs)-1].(*ssa.If); ok {
+				if pr.Succs[0] == j && pr.Succs[1] != j {
+					eg = append(eg, Guard{iff.Cond, true, iff})
+				} else if pr.Succs[1] == j && pr.Succs[0] != j {
+					eg = append(eg, Guard{iff.Cond, false, iff})
+				}
+			}
+			contradicted := false
+			for _, e := range eg {
+				for _, a := range after {
+					if e.Pol != a.Pol && e.Cond != a.Cond && sameCondExpr(e.Cond, a.Cond, 0) {
+						contradicted = true
+					}
+				}
+			}
+			if contradicted {
+				pruned++
+				continue
+			}
+			feasible = append(feasible, eg)
+		}
+		if pruned == 0 || len(feasible) == 0 {
+			continue
+		}
+		// intersection over the feasible edges
+		for _, g := range feasible[0] {
+			all := true
+			for _, other := range feasible[1:] {
+				has := false
+				for _, o := range other {
+					if o.Cond == g.Cond && o.Pol == g.Pol {
+						has = true
+					}
+				}
+				if !has {
+					all = false
+				}
+			}
+			if all {
+				dup := false
+				for _, k := range known {
+					if k.Cond == g.Cond && k.Pol == g.Pol {
+						dup = true
+					}
+				}
+				if !dup {
+					out = append(out, g)
+				}
+			}
+		}
+	}
+	return out
+}
+
+// sameCondExpr: two conditions (or operands) that are separate instructions but compute the same thing from the same
+// values: same operator over the same operands, len/cap of the same value, loads of the same address, equal constants.
+func sameCondExpr(a, b ssa.Value, depth int) bool {
+	if a == b {
+		return true
+	}
+	if depth > 4 {
+		return false
+	}
+	switch x := a.(type) {
+	case *ssa.BinOp:
+		y, ok := b.(*ssa.BinOp)
+		return ok && x.Op == y.Op && sameCondExpr(x.X, y.X, depth+1) && sameCondExpr(x.Y, y.Y, depth+1)
+	case *ssa.UnOp:
+		y, ok := b.(*ssa.UnOp)
+		if !ok || x.Op != y.Op {
+			return false
+		}
+		if x.Op == token.MUL {
+			// two loads are the same value only if nothing can have written in between: accept loads of a local that is
+			// stored once, and field/element addresses of the same base that the function never stores to
+			return sameCondExpr(x.X, y.X, depth+1) && !storedInFunction(x.X)
+		}
+		return sameCondExpr(x.X, y.X, depth+1)
+	case *ssa.Call:
+		y, ok := b.(*ssa.Call)
+		if !ok {
+			return false
+		}
+		bx, okx := x.Call.Value.(*ssa.Builtin)
+		by, oky := y.Call.Value.(*ssa.Builtin)
+		if okx && oky && bx.Name() == by.Name() && (bx.Name() == "len" || bx.Name() == "cap") {
+			return sameCondExpr(x.Call.Args[0], y.Call.Args[0], depth+1)
+		}
+		return false
+	case *ssa.Const:
+		y, ok := b.(*ssa.Const)
+		return ok && x.Value != nil && y.Value != nil && x.Value.ExactString() == y.Value.ExactString() && types.Identical(x.Type(), y.Type())
+	case *ssa.FieldAddr:
+		y, ok := b.(*ssa.FieldAddr)
+		return ok && x.Field == y.Field && sameCondExpr(x.X, y.X, depth+1)
+	case *ssa.IndexAddr:
+		y, ok := b.(*ssa.IndexAddr)
+		return ok && sameCondExpr(x.X, y.X, depth+1) && sameCondExpr(x.Index, y.Index, depth+1)
+	case *ssa.Convert:
+		y, ok := b.(*ssa.Convert)
+		return ok && types.Identical(x.Type(), y.Type()) && sameCondExpr(x.X, y.X, depth+1)
+	}
+	return false
+}
+
+// storedInFunction: some store in addr's function writes through an address with the same shape (field of the same base /
+// the same local).
+func storedInFunction(addr ssa.Value) bool {
+	ins, ok := addr.(ssa.Instruction)
+	if !ok {
+		return true
+	}
+	found := false
+	eachInstr(ins.Parent(), func(i ssa.Instruction) {
+		if st, ok := i.(*ssa.Store); ok && sameCondExpr(st.Addr, addr, 3) {
+			found = true
+		}
+	})
+	return found
+}
+
+func guardsAtDom(b *ssa.BasicBlock) []Guard {
 	var out []Guard
 	for d := b.Idom(); d != nil; d = d.Idom() {
 		if len(d.Instrs) == 0 {
